@@ -9,7 +9,7 @@ import (
 	"image"
 
 	vp8 "github.com/deepteams/webp/verifharness/ref/xvp8"
-	"golang.org/x/image/vp8l"
+	vp8l "github.com/deepteams/webp/verifharness/ref/xvp8l"
 	"github.com/deepteams/webp/verifharness/ref/xwebp"
 )
 
